@@ -470,4 +470,27 @@ Section Roundtrip.
       destruct (lookup k' av); reflexivity.
     - apply merge_ann_only_other_ann. cbn in R. destruct (lookup k' anns); [discriminate|reflexivity].
   Qed.
+
+  (* C16, the DEFAULT progress storage (SmartProgressStorage = annotations first, read-only status second): with the
+     annotations written, the status stanza is not written at all - the patch of the smart storage is the patch of its
+     annotation storage ... *)
+  Theorem smart_store_is_ann_store prefix v1 verbose tk field tf key record body p :
+    pstore dg (smart prefix v1 verbose tk field tf) key record body p
+    = pstore dg (PAnn prefix v1 verbose tk) key record body p.
+  Proof.
+    unfold smart. cbn [pstore].
+    match goal with |- bind ?e _ = _ => destruct e end; reflexivity.
+  Qed.
+
+  (* ... and what is stored is read back through the multi-storage's first-found read, for every configuration, id,
+     record and body. *)
+  Theorem smart_roundtrip prefix v1 verbose tk field tf key record body patch :
+    pstore dg (smart prefix v1 verbose tk field tf) key record body (JObj []) = Ok patch ->
+    pfetch dg (smart prefix v1 verbose tk field tf) key (merge body patch)
+    = Ok (Some (JObj (if verbose then record else drop_nulls record))).
+  Proof.
+    rewrite smart_store_is_ann_store. intro H.
+    pose proof (ann_roundtrip prefix v1 verbose tk key record body patch H) as R.
+    unfold smart. cbn [pfetch] in *. rewrite R. reflexivity.
+  Qed.
 End Roundtrip.
